@@ -642,7 +642,69 @@ inductive Op where
   | rotate (c s : Rat)
   | copy
   | roundtrip
+  /-- `reset()` followed by the class's own way of defining a region: `update_limits` (rectangle),
+  `set_range` (range), `move_to` + `set_radius` / radius attributes (circle, ellipse, annulus),
+  `add_point` per vertex (polygon).  `new` carries the new parameters (its angle is ignored). -/
+  | define (new : Roi)
+  /-- `add_point(x, y)` on a defined polygon (no reset). -/
+  | addPoint (p : Pt)
+  /-- `replace_last_point(x, y)`. -/
+  | replaceLast (p : Pt)
+  /-- `remove_point(x, y)` (no threshold): drops the vertex nearest to the reference point. -/
+  | removePoint (p : Pt)
+  /-- `c = roi.copy(); roi.add_point(x, y); continue with c` — `copy()` is `copy.copy`, the vertex
+  lists are shared, so the copy follows an in-place edit of the original (finding F24). -/
+  | forkAdd (p : Pt)
   deriving Repr
+
+/-! ### redefinition of a region object: what each class resets and what it keeps (as coded) -/
+
+/-- First index of the minimum (`min(inds, key=lambda i: dist[i])`). -/
+def argminAux : Rat → Nat → Nat → List Rat → Nat
+  | _, bi, _, [] => bi
+  | bv, bi, i, d :: ds => if d < bv then argminAux d i (i + 1) ds else argminAux bv bi (i + 1) ds
+
+def argmin : List Rat → Nat
+  | [] => 0
+  | d :: ds => argminAux d 0 1 ds
+
+def editAdd (vs : List Pt) (p : Pt) : List Pt := vs ++ [p]
+/-- `if len(self.vx) > 0: self.vx[-1] = x; self.vy[-1] = y`. -/
+def editReplaceLast (vs : List Pt) (p : Pt) : List Pt := if vs.isEmpty then vs else vs.dropLast ++ [p]
+/-- `remove_point(x, y)`: squared distances, first nearest vertex removed. -/
+def editRemove (vs : List Pt) (p : Pt) : List Pt := vs.eraseIdx (argmin (vs.map fun v => dist2 v.1 v.2 p))
+
+/-- The region an object of class `old` describes after `reset()` + definition with the parameters of
+`new`, when the position angle that survives is `(c, s)` (rectangle, ellipse: `theta` is not touched
+by `reset()` / `update_limits` / `move_to`; the limits are sorted by `update_limits`) — and, for a
+polygon, the freshly added vertices with the angle `polyAngle`. -/
+def redefineWith (old : Roi) (c s : Rat) (polyAngle : Rat × Rat) (new : Roi) : Option Roi :=
+  match old, new with
+  | .rect _, .rect n =>
+    some (.rect ⟨rmin n.xmin n.xmax, rmax n.xmin n.xmax, rmin n.ymin n.ymax, rmax n.ymin n.ymax, c, s⟩)
+  | .circle _, .circle n => some (.circle n)
+  | .ellipse _, .ellipse n => some (.ellipse { n with c := c, s := s })
+  | .annulus _, .annulus n => some (.annulus n)
+  | .range o, .range n => some (.range { n with isX := o.isX })
+  | .poly _, .poly n => some (.poly { vs := n.vs, c := polyAngle.1, s := polyAngle.2 })
+  | _, _ => none
+
+/-- The stored angle of the object (what `reset()` of a rectangle / ellipse keeps). -/
+def Roi.theta : Roi → Rat × Rat
+  | .rect r => (r.c, r.s)
+  | .ellipse e => (e.c, e.s)
+  | .poly g => (g.c, g.s)
+  | _ => (1, 0)
+
+/-- `reset()` + definition as coded: `VertexROIBase.reset` sets `theta = 0`, the rectangle's and the
+ellipse's `reset` keep `theta`. -/
+def Roi.redefine (cur new : Roi) : Roi :=
+  (redefineWith cur cur.theta.1 cur.theta.2 (1, 0) new).getD cur
+
+/-- Vertex edits on a polygon (the stored angle is kept). -/
+def Roi.editVs (f : List Pt → List Pt) : Roi → Roi
+  | .poly g => .poly { g with vs := f g.vs }
+  | r => r
 
 namespace Impl
 def applyOp (r : Roi) : Op → Roi
@@ -650,9 +712,25 @@ def applyOp (r : Roi) : Op → Roi
   | .rotate c s => r.rotateTo c s
   | .copy => r.copy
   | .roundtrip => (Roi.ofState r.toState).getD .undefined
+  | .define new => r.redefine new
+  | .addPoint p => r.editVs (editAdd · p)
+  | .replaceLast p => r.editVs (editReplaceLast · p)
+  | .removePoint p => r.editVs (editRemove · p)
+  | .forkAdd p => r.editVs (editAdd · p)
 
 def applyOps (r : Roi) (ops : List Op) : Roi := ops.foldl applyOp r
 end Impl
+
+/- Variant model (not the code that exists): `VertexROIBase.reset()` keeps `theta`, "as the
+rectangle's and the ellipse's reset do" — seeded change C08c.  Used for a `decide`d witness that the
+specification of redefinitions rejects it. -/
+namespace Variant
+def applyOp (r : Roi) : Op → Roi
+  | .define new => (redefineWith r r.theta.1 r.theta.2 r.theta new).getD r
+  | op => Impl.applyOp r op
+
+def applyOps (r : Roi) (ops : List Op) : Roi := ops.foldl applyOp r
+end Variant
 
 /-- A rigid motion accumulated by the specification: `p ↦ R(c,s)(p − pivot) + pivot + shift`. -/
 structure Motion where
@@ -667,8 +745,15 @@ def Motion.undo (m : Motion) (p : Pt) : Pt :=
   let q : Pt := (p.1 - m.shift.1 - m.pivot.1, p.2 - m.shift.2 - m.pivot.2)
   ((unrot m.c m.s q).1 + m.pivot.1, (unrot m.c m.s q).2 + m.pivot.2)
 
-/-- Specification state: the original region, the motions applied so far (latest first), the
-current centre and the current position angle. -/
+/-- Image of a point under a motion. -/
+def Motion.apply (m : Motion) (p : Pt) : Pt :=
+  ((rotAbout m.pivot m.c m.s p).1 + m.shift.1, (rotAbout m.pivot m.c m.s p).2 + m.shift.2)
+
+/-- Push a point forward through all motions (the list is latest first). -/
+def pushforward (ms : List Motion) (p : Pt) : Pt := ms.foldr (fun m q => m.apply q) p
+
+/-- Specification state: the region as last defined (constructor or redefinition), the motions applied
+since (latest first), the current centre and the current position angle. -/
 structure SpecState where
   roi : Roi
   motions : List Motion
@@ -711,15 +796,35 @@ def step (st : SpecState) : Op → SpecState
   | .roundtrip => match st.roi with
     | .poly _ => { st with c := 1, s := 0 }
     | _ => st
+  | .define new =>
+    -- the newly defined region with the angle the class documents: a rectangle / ellipse keeps its
+    -- (absolute) position angle, a polygon starts again at angle 0; no motion has been applied to it
+    match redefineWith st.roi st.c st.s (1, 0) new with
+    | some r' => ⟨r', [], r'.center, (orient r').1, (orient r').2⟩
+    | none => st
+  | .addPoint p => edit st (editAdd · p)
+  | .replaceLast p => edit st (editReplaceLast · p)
+  | .removePoint p => edit st (editRemove · p)
+  | .forkAdd _ => st          -- a copy is the same region, whatever happens to the original afterwards
+where
+  /-- A vertex edit re-bases the specification on the polygon whose vertices are the current
+  (moved) vertices, edited; the position angle is kept. -/
+  edit (st : SpecState) (f : List Pt → List Pt) : SpecState :=
+    match st.roi with
+    | .poly g =>
+      let vs := f (g.vs.map (pushforward st.motions))
+      ⟨.poly { vs := vs, c := st.c, s := st.s }, [], polyCenter vs, st.c, st.s⟩
+    | _ => st
 
 def run (r : Roi) (ops : List Op) : SpecState := ops.foldl step (init r)
 
 /-- Pull a point back through all motions (latest first). -/
 def pullback (ms : List Motion) (p : Pt) : Pt := ms.foldl (fun q m => m.undo q) p
 
-/-- Containment demanded after the operations: the original region contains the pulled-back point. -/
+/-- Containment demanded after the operations: the region as last (re)defined contains the point
+pulled back through the motions applied since. -/
 def containsAfter (r : Roi) (ops : List Op) (p : Pt) : Bool :=
-  contains r (pullback (run r ops).motions p)
+  contains (run r ops).roi (pullback (run r ops).motions p)
 end Spec
 
 /-! ## Projected 3-d region -/
